@@ -4,9 +4,9 @@
 // Failing check: assertion ""C06: decode(encode(n)) == n""
 #[test]
 fn kani_concrete_playback_vlq_roundtrip_full_17640925101298956203() {
-    let concrete_vals: Vec<Vec<u8>> = vec![
+    let concrete_vals: std::vec::Vec<std::vec::Vec<u8>> = std::vec![
         // 16133
-        vec![5, 63, 0, 0, 0, 0, 0, 0],
+        std::vec![5, 63, 0, 0, 0, 0, 0, 0],
     ];
     kani::concrete_playback_run(concrete_vals, vlq_roundtrip_full);
 }
